@@ -67,6 +67,13 @@ def run(tier):
     rep.add_tlc("MC_C07_Split", res2)
     replay_lines(rep, binary, d2, runs, "split", cover)
     rep.sample({"split_run": runs[len(runs) // 2]["tests"], "expect_last": runs[len(runs) // 2]["expect"][-1]})
+    # (a'') every operation history of length <= 4 (5: thorough) over a 13-operation universe: hidden implementation state
+    # (a cached hint, a stored header) that survives into a later call shows up only after a particular history
+    d2b, res2b, paths = vlib.tlc_chunked(PROP, "paths", "MC_C07_Paths", nchunks=14)
+    rep.add_tlc("MC_C07_Paths", res2b)
+    replay_lines(rep, binary, d2b, paths, "paths", cover)
+    rep.sample({"history": [o["op"] + ":" + str(o["ct"]) for o in paths[len(paths) // 3]["tests"]],
+                "expect_paths": [e["path"] for e in paths[len(paths) // 3]["expect"]]})
     # (b) seeded random operation sequences on the real object, validated by the trace specification
     nruns, maxops = (20000, 30) if thorough else (3000, 24)
     d3 = vlib.workdir(PROP, "trace")
